@@ -45,6 +45,28 @@ if [ "${1:-}" = setup ]; then
   exit $rc
 fi
 
+if [ "${1:-}" = selfcheck ]; then
+  # differential validation of the happens-before state cache: the same scenarios explored with
+  # and without the cache must produce the same set of terminal observations
+  rc=0
+  while read -r id only bound; do
+    a=$("$0" "$id" quick -only "$only" -bound "$bound" 2>&1 | grep "outcome-set digest")
+    b=$(VERIF_NOCACHE=1 VERIF_OUT="$V/.build/selfcheck.$$" "$0" "$id" quick -only "$only" -bound "$bound" 2>&1 | grep "outcome-set digest")
+    if [ -n "$a" ] && [ "$a" = "$b" ]; then echo "selfcheck $id [$only] bound $bound: cached == uncached ($a)"; else echo "selfcheck $id [$only] bound $bound: MISMATCH cached='$a' uncached='$b'"; rc=2; fi
+  done <<'EOT'
+C06 aq(2,B)/2w 3
+C01 aq(1,B)/Write1,Writev|CtxWrite1,CtxWritev 2
+C02 aq(2,N)/Write1,Writev|CtxWrite1,CtxWritev 2
+C05 aq(2,B)/user1+user2 2
+C11 overlap/aq(2,B)/close(nil) 2
+C18 aq(1,B)/cancelled 2
+C10 aq(1,B)/Write1(8) 2
+C09 aq(2,B)/none/[]byte 2
+EOT
+  rm -rf "$V/.build/selfcheck.$$"; rmdir "$V/.build" 2>/dev/null
+  exit $rc
+fi
+
 id=${1:?property id}; mode=${2:?quick|thorough|replay}; shift 2
 h=$(echo "$id" | tr 'A-Z' 'a-z')
 [ -d "$V/harness/$h" ] || { echo "ENGINE ERROR: no harness for $id" >&2; exit 2; }
